@@ -4523,3 +4523,47 @@ func c02R12(c *Ctx, r *Report) {
 	r.Check(ok, rule, fn.Name(), "a declaration without a value is given its zero value", c.pos(valueIf.End()),
 		"a declaration without an initialiser only reserves its slot: natively `while i < 3 { let x: i32; io::Println(x); x = i + 7; … }` prints 0 7 8 (the slot is shared by the iterations) and wasm prints 0 0 0; `let s: str; io::Println(s);` and `let m: map[i32]i32; m[1] = 2;` are refused by QBE (\"slot is read but never stored to\") while wasm runs them")
 }
+
+// ---- C09.R6: a match pattern that names a value works whether or not the compiler knows the value --------------
+
+func init() {
+	lateInits = append(lateInits, func() {
+		props["C09"].Quick = append(props["C09"].Quick, c09R6b)
+		props["C09"].Explanation += " (R6b) lowerMatch compares a pattern that names a variable or constant with the value the name has at run time when matchCaseConstValue cannot evaluate it: `const k := one(); match v { k => … }` compiles like `const k := 1; …`."
+	})
+}
+
+func c09R6b(c *Ctx, r *Report) {
+	const rule = "C09.R6b"
+	r.Describe(rule, "mir/gen lowerMatch: between the failure of matchCaseConstValue and the `unsupported match pattern` report there is a branch for *hir.Ident patterns that lowers the identifier (lowerValueExpr / lowerExpr / loadIdent)")
+	fn := c.LookupFn(pkgMIRGen, "(*functionBuilder).lowerMatch")
+	mc := c.LookupFn(pkgMIRGen, "(*functionBuilder).matchCaseConstValue")
+	if !r.Anchor(rule, fn != nil && mc != nil, "mir/gen lowerMatch / matchCaseConstValue") {
+		return
+	}
+	info := fn.Info()
+	ok := false
+	ast.Inspect(fn.Decl.Body, func(x ast.Node) bool {
+		ifs, isIf := x.(*ast.IfStmt)
+		if !isIf {
+			return true
+		}
+		// if ident, isIdent := clause.Pattern.(*hir.Ident); …
+		asg, isAs := ifs.Init.(*ast.AssignStmt)
+		if !isAs || len(asg.Rhs) != 1 {
+			return true
+		}
+		ta, isTA := asg.Rhs[0].(*ast.TypeAssertExpr)
+		if !isTA || ta.Type == nil || !strings.HasSuffix(exprStr(ta.Type), "hir.Ident") || !strings.HasSuffix(exprStr(ta.X), ".Pattern") {
+			return true
+		}
+		for _, cl := range callsIn(ifs.Body, false) {
+			if f := callee(info, cl); f != nil && (f.Name() == "lowerValueExpr" || f.Name() == "lowerExpr" || f.Name() == "loadIdent") {
+				ok = true
+			}
+		}
+		return true
+	})
+	r.Check(ok, rule, fn.Name(), "a pattern naming a value is compared at run time when it is not a compile-time constant", c.pos(fn.Decl.Pos()),
+		"a pattern is accepted only if the compiler can evaluate it: `const k := 1; match v { k => … }` compiles, `const k := one(); match v { k => … }` is refused (\"MIR lowering unsupported: match pattern\") — whether the program is accepted depends on what can be evaluated early")
+}
